@@ -5,6 +5,7 @@ package props
 import (
 	"bytes"
 	"encoding/binary"
+	"encoding/hex"
 	"fmt"
 	"math/big"
 	"testing"
@@ -51,6 +52,9 @@ func genDifficulty(c *pbt.C) uint64 {
 }
 
 // mine finds a nonce the REFERENCE accepts (d small), starting from a drawn value.
+// c12premined[i]: nonce (hex, as stored in the block) that satisfies difficulty 2^28 for the first block of sim.ExtraKey(i)
+var c12premined = []string{"8e12630800000000", "c572730400000000", "607d310300000000"}
+
 func mine(addr types.Address, prev types.Hash, d uint64, start uint64, maxTries int) ([8]byte, bool) {
 	var n [8]byte
 	for i := 0; i < maxTries; i++ {
@@ -309,6 +313,37 @@ func TestC12Plasma(t *testing.T) {
 				c.Class("block-with-pow-accepted")
 			}
 		}
+		// proof of work above the point where it stops buying plasma (difficulty 141 750 000 = 94 500 plasma): nonces for
+		// the FIRST block of three unused accounts (previous hash zero, so the proof-of-work input is known beforehand)
+		// were mined once, offline, at difficulty 2^28; they satisfy every smaller difficulty as well. The block carries
+		// enough data to cost more than 94 500 (or just not), nothing is fused for these accounts.
+		highPow := func() {
+			i := c.Pick("hp.key", len(c12premined))
+			kp := sim.ExtraKey(i)
+			if h.A.Chain.GetFrontierAccountStore(kp.Address).Identifier().Height != 0 {
+				return // no longer its first block
+			}
+			var nonce [8]byte
+			nb, _ := hex.DecodeString(c12premined[i])
+			copy(nonce[:], nb)
+			d := []uint64{141750000, 141750001, 150000000, 1 << 28, 200000000}[c.Pick("hp.d", 5)]
+			if !refPowAccept(d, refPowValue(kp.Address, types.ZeroHash, nonce)) {
+				c.Class("premined-nonce-not-valid-for-this-key")
+				return
+			}
+			n := []int{1000, 1080, 1081, 1100, 2000, 5000}[c.Pick("hp.len", 6)]
+			data := bytes.Repeat([]byte{0x5a}, n)
+			tpl := &nom.AccountBlock{Address: kp.Address, BlockType: nom.BlockTypeUserSend, ToAddress: h.Users[c.Pick("hp.to", len(h.Users))], TokenStandard: types.ZnnTokenStandard,
+				Amount: big.NewInt(0), Data: data, Difficulty: d, Nonce: nom.Nonce{Data: nonce}}
+			custom++
+			b, err := h.Submit(tpl, fmt.Sprintf("first block of %s with mined proof of work of difficulty %d (worth %d plasma) and %d bytes of data (base cost %d)",
+				kp.Address.String()[:10], d, refPowPlasma(d), n, refTxPlasma+refBytePlasma*n))
+			c.Class("block-with-proof-of-work-beyond-the-plasma-it-buys")
+			if err == nil && b != nil {
+				powAccepted++
+				c.Class("block-with-pow-accepted")
+			}
+		}
 		// a block delivered from outside (peer / RPC) whose fields outside the hash are chosen by the sender: it pays
 		// less than its cost and states a base cost (and total) to match
 		forgedBase := func() {
@@ -394,6 +429,7 @@ func TestC12Plasma(t *testing.T) {
 		acts["customPlasma2"] = custPlasma
 		acts["customPlasma3"] = custPlasma
 		acts["forgedBase"] = forgedBase
+		acts["highPow"] = highPow
 		c.Repeat(acts, inv)
 		if sawMulti {
 			c.Class(">=2-unconfirmed-blocks-before-candidate")
